@@ -1,24 +1,28 @@
 (** C10 — Nothing is reused from a cache beyond its validity.
     Property theorems only; definitions in C10/Model.v, vocabulary and proofs in
-    C10/Proofs.v.  Unit: nanoseconds in [Z]; `exp`/NotAfter in whole seconds.
+    C10/Proofs.v, C10/Sound.v, C10/SoundHist.v; the correspondence evaluator in
+    Run/Eval_C10.v.  Unit: nanoseconds in [Z]; `exp`/NotAfter in whole seconds.
 
-    [f : fixes] selects the code: [fx_none] = the pinned tree, [fx<n> f = true]
-    = after fixes/C10-F<n>.diff.  A guard is [false] whenever its fix is applied, so
-    every theorem below is unguarded for the repaired code. *)
+    [f : fixes] selects the code: [fx_none] = the originally pinned tree,
+    [fx1/fx2/fx3 f = true] = with the fix: commits 637ae67 (C10-F1), c971513
+    (C10-F2), e0dc5e2 (C10-F3), which /repo contains; [fx_all] = all three.  The
+    main theorems are stated for the repaired code and carry no guard; what the
+    pinned code did instead is kept as [C10_F<n>_pinned_refuted]. *)
 From HV Require Import Base.Prelude Base.Time C10.Model C10.Proofs Run.Eval_C10 C10.Sound C10.SoundHist.
 Open Scope Z_scope.
 
 (** an introspection response / JWK / session / access token is stored only with
     a positive ttl, and the entry is gone strictly before the thing's own expiry
     (so also before expiry + any validity leeway), even if the cache applies the
-    ttl up to [max_delay] = 4 s after it was computed *)
+    ttl up to [max_delay] = 4 s after it was computed.  For ALL expiry instants,
+    clock readings and ttl states. *)
 Theorem C10_ttl_within_lifetime : forall f m st e now d ttl,
+  fx1 f = true ->
   expiry_mech m = true ->
-  guard_F1 f m st (Some e) now = false ->
   store f m st (Some e) now = Some ttl ->
   0 <= d <= max_delay ->
   0 < ttl /\ now + d + ttl < expiry_instant m e.
-Proof. exact ttl_within_lifetime. Qed.
+Proof. exact ttl_within_lifetime_fixed. Qed.
 Print Assumptions C10_ttl_within_lifetime.
 
 (** no mechanism ever hands a non-positive ttl to the cache (the in-memory cache
@@ -42,12 +46,12 @@ Print Assumptions C10_finalizer_token_not_expired.
 (** a ttl of zero in force for the rule (rule-level setting, else the
     mechanism's) disables both the lookup and the store *)
 Theorem C10_zero_disables : forall f m conf rule,
+  fx3 f = true ->
   m <> MJwtFin ->
   spec_cfg m conf rule = Some 0 ->
-  guard_F3 f m conf rule = false ->
   let st := withconfig_ttl f m (create_ttl m conf) rule in
   lookup_enabled m st = false /\ forall exp now, store f m st exp now = None.
-Proof. exact zero_disables. Qed.
+Proof. exact zero_disables_fixed. Qed.
 Print Assumptions C10_zero_disables.
 
 (** a configured ttl is an upper bound of what is handed to the cache (together
@@ -58,19 +62,16 @@ Proof. exact config_only_shortens. Qed.
 Print Assumptions C10_config_only_shortens.
 
 (** a response whose RFC 7234 freshness lifetime (explicit, or the configured
-    default) is zero or negative leaves the cache unchanged *)
-Theorem C10_http_not_stored_when_nonpositive : forall f b cachable expires dflt now1 now2 ts k (v : result) c l,
+    default) is zero or negative is not handed to the cache at all ... *)
+Theorem C10_http_not_stored_when_nonpositive : forall f cachable expires dflt now1 now2 l,
+  fx2 f = true ->
   now1 <= now2 ->
   http_lifetime expires dflt now2 = Some l -> l <= 0 ->
-  guard_F2 f b expires dflt now2 = false ->
-  match http_store_decision f cachable expires dflt now1 now2 with
-  | Some ttl => cset b ts k v ttl c = c
-  | None => True
-  end.
-Proof. exact http_not_stored_when_nonpositive. Qed.
+  http_store_decision f cachable expires dflt now1 now2 = None.
+Proof. exact http_no_set_when_nonpositive_fixed. Qed.
 Print Assumptions C10_http_not_stored_when_nonpositive.
 
-(** and a stored response expires exactly at its freshness limit / within the default ttl *)
+(** ... and a stored response expires exactly at its freshness limit / within the default ttl *)
 Theorem C10_http_ttl_within_lifetime : forall f cachable expires dflt now1 now2 ttl,
   now1 <= now2 ->
   http_store_decision f cachable expires dflt now1 now2 = Some ttl ->
@@ -81,116 +82,104 @@ Print Assumptions C10_http_ttl_within_lifetime.
 (** all request sequences over time, both cache semantics: whatever is served
     from cache is served strictly before its own expiry *)
 Theorem C10_no_hit_after_expiry : forall b f m st h now0,
+  fx1 f = true ->
   expiry_mech m = true ->
   wf_hist max_delay h ->
-  (forall tc ts fresh s,
-      In (Miss tc ts fresh s) (run b (lookup_enabled m st) (mech_policy f m st) now0 [] h) ->
-      guard_F1 f m st (r_exp fresh) tc = false) ->
   forall t v e,
     In (Hit t v) (run b (lookup_enabled m st) (mech_policy f m st) now0 [] h) ->
     r_exp v = Some e -> t < expiry_instant m e.
-Proof. exact no_hit_after_expiry_mech. Qed.
+Proof. exact no_hit_after_expiry_mech_fixed. Qed.
 Print Assumptions C10_no_hit_after_expiry.
 
 (** the same for responses cached by the RFC 7234 round tripper ([D]: bound on
     the delay between [time.Until] and the cache's own clock reading) *)
 Theorem C10_no_hit_after_expiry_http : forall b f dflt D h now0,
+  fx2 f = true ->
   wf_hist D h ->
-  (forall tc ts fresh s,
-      In (Miss tc ts fresh s) (run b true (http_policy f dflt) now0 [] h) ->
-      guard_F2 f b (r_exp fresh) dflt tc = false) ->
   forall t v e,
     In (Hit t v) (run b true (http_policy f dflt) now0 [] h) ->
     r_exp v = Some e -> t <= e + D.
-Proof. exact no_hit_after_expiry_http. Qed.
+Proof. exact no_hit_after_expiry_http_fixed. Qed.
 Print Assumptions C10_no_hit_after_expiry_http.
 
-(** the three findings on the pinned code *)
-Theorem C10_F1_refuted : forall m, ptr_mech m = true ->
+(** ** what the originally pinned code did instead (fixed by 637ae67, c971513, e0dc5e2) *)
+
+(** C10-F1: expiry inside the leeway + configured (or default) ttl => cached for the full ttl *)
+Theorem C10_F1_pinned_refuted : forall m, ptr_mech m = true ->
   exists st e now ttl,
     guard_F1 fx_none m st (Some e) now = true /\
     store fx_none m st (Some e) now = Some ttl /\
     ~ (now + ttl < expiry_instant m e + secs 10).
 Proof. exact F1_refuted. Qed.
-Print Assumptions C10_F1_refuted.
+Print Assumptions C10_F1_pinned_refuted.
 
-Theorem C10_F1_history_refuted :
+Theorem C10_F1_history_pinned_refuted :
   exists h t v e, wf_hist max_delay h /\
     In (Hit t v) (run Mem (lookup_enabled MIntro s300) (mech_policy fx_none MIntro s300) (secs 1000) [] h) /\
     r_exp v = Some e /\ ~ (t < expiry_instant MIntro e + secs 10).
 Proof. exact F1_history_refuted. Qed.
-Print Assumptions C10_F1_history_refuted.
+Print Assumptions C10_F1_history_pinned_refuted.
 
-Theorem C10_F2_refuted :
+(** C10-F2: `max-age=0` stored in the in-memory cache without expiry, served an hour later *)
+Theorem C10_F2_pinned_refuted :
   exists now l, http_lifetime (Some now) 0 now = Some l /\ l <= 0 /\
     guard_F2 fx_none Mem (Some now) 0 now = true /\
     exists ttl, http_store_decision fx_none true (Some now) 0 now now = Some ttl /\
       cget Mem (now + secs 3600) 1 (cset Mem now 1 {| r_id := 7; r_exp := Some now |} ttl []) <> None.
 Proof. exact F2_refuted. Qed.
-Print Assumptions C10_F2_refuted.
+Print Assumptions C10_F2_pinned_refuted.
 
-Theorem C10_F3_refuted :
+(** C10-F3: remote authorizer, prototype 30 s, rule-level `cache_ttl: 0s`: still cached *)
+Theorem C10_F3_pinned_refuted :
   exists conf rule, spec_cfg MRemote conf rule = Some 0 /\ guard_F3 fx_none MRemote conf rule = true /\
     lookup_enabled MRemote (withconfig_ttl fx_none MRemote (create_ttl MRemote conf) rule) = true.
 Proof. exact F3_refuted. Qed.
-Print Assumptions C10_F3_refuted.
+Print Assumptions C10_F3_pinned_refuted.
 
-(** non-vacuity: the hypotheses of the main theorems hold for ordinary inputs *)
+(** non-vacuity: ordinary inputs satisfy the hypotheses of the main theorems, and
+    the former witnesses of C10-F1/F2/F3 are not cached by the repaired code *)
 Theorem C10_nonvacuous :
-  guard_F1 fx_none MIntro s300 (Some 1100) (secs 1000) = false /\
-  store fx_none MIntro s300 (Some 1100) (secs 1000) = Some (secs 90) /\
-  store fx_none MJwtKey None (Some 2000) (secs 1000) = Some (secs 600) /\
-  store fx_none MGeneric (Some (secs 300)) (Some 1005) (secs 1000) = None /\
-  store fx_none MClientCred None (Some (secs 1100)) (secs 1000) = Some (secs 95).
-Proof. exact nonvacuous_ttl. Qed.
+  store fx_all MIntro s300 (Some 1005) (secs 1000) = None /\
+  store fx_all MJwtKey None (Some 1005) (secs 1000) = None /\
+  store fx_all MClientCred s300 (Some (secs 1003)) (secs 1000) = None /\
+  store fx_all MIntro s300 (Some 1100) (secs 1000) = Some (secs 90) /\
+  store fx_all MJwtKey None (Some 2000) (secs 1000) = Some (secs 600) /\
+  store fx_all MClientCred None (Some (secs 1100)) (secs 1000) = Some (secs 95) /\
+  http_store_decision fx_all true (Some (secs 1000)) 0 (secs 1000) (secs 1000) = None /\
+  lookup_enabled MRemote (withconfig_ttl fx_all MRemote (create_ttl MRemote (Some (secs 30))) (Some 0)) = false.
+Proof. exact fixed_witnesses. Qed.
 Print Assumptions C10_nonvacuous.
 
 (** ** the correspondence evaluator is sound w.r.t. these theorems
 
-    [Run.Eval_C10.check f c] computes, for a generated case [c] and the
-    implementation's observation in it: [v_corr] (the model answers like the
+    [Run.Eval_C10.check f c] computes, for a recorded case [c] (input + the
+    implementation's observation): [v_corr] (the model answers like the
     implementation), [v_prop] (the property predicate, written from the property
-    text, on the observation) and the finding guards.  For EVERY case of the five
-    kinds below -- all inputs, all observations -- correspondence without a firing
-    guard implies the property predicate: a property failure on an unguarded input
-    is always a disagreement between implementation and model. *)
-Theorem C10_check_sound_fn : forall f m st exp now dmax o,
-  0 <= dmax <= max_delay ->
-  let v := check f (CFn m st exp now dmax o) in
-  v_corr v = true -> v_guards v = [] -> v_prop v = true.
-Proof. exact check_sound_fn. Qed.
-Print Assumptions C10_check_sound_fn.
+    text, on the observation) and the finding guards.  For EVERY well-formed case
+    of all five kinds -- all inputs, all observations -- correspondence without a
+    firing guard implies the property predicate; for the repaired code no guard
+    can fire, so there correspondence alone implies it.  Hence every property
+    failure the check reports is a disagreement between implementation and model.
+    [wf_case] (C10/SoundHist.v) is what the driver guarantees: measured bracket
+    at most [max_delay] wide; no expiry information for mechanisms without one;
+    for histories non-decreasing instants, unique payload ids and every model ttl
+    above the measurement slack. *)
+Theorem C10_check_sound : forall f c,
+  wf_case f c ->
+  v_corr (check f c) = true -> v_guards (check f c) = [] -> v_prop (check f c) = true.
+Proof. exact check_sound. Qed.
+Print Assumptions C10_check_sound.
 
-Theorem C10_check_sound_exec : forall f m conf rule exp now dmax o,
-  0 <= dmax <= max_delay ->
-  wf_exec m exp ->
-  let v := check f (CExec m conf rule exp now dmax o) in
-  v_corr v = true -> v_guards v = [] -> v_prop v = true.
-Proof. exact check_sound_exec. Qed.
-Print Assumptions C10_check_sound_exec.
+Theorem C10_check_sound_fixed : forall c,
+  wf_case fx_all c -> v_corr (check fx_all c) = true -> v_prop (check fx_all c) = true.
+Proof. exact check_sound_fixed. Qed.
+Print Assumptions C10_check_sound_fixed.
 
-Theorem C10_check_sound_http : forall f b cachable life dflt dmax o_set o_hit,
-  0 <= dmax ->
-  let v := check f (CHttp b cachable life dflt dmax o_set o_hit) in
-  v_corr v = true -> v_guards v = [] -> v_prop v = true.
-Proof. exact check_sound_http. Qed.
-Print Assumptions C10_check_sound_http.
-
-(** expiry enforcement of both cache semantics, for all operation sequences *)
-Theorem C10_check_sound_cache : forall f b ops,
+(** expiry enforcement of both cache semantics, for all operation sequences:
+    whatever a Get returns was put there by the last successful Set of that key
+    and, if that Set carried a positive ttl, not longer ago than the ttl *)
+Theorem C10_cache_expiry_enforced : forall f b ops,
   let v := check f (CCache b ops) in
   v_corr v = true -> v_guards v = [] -> v_prop v = true.
 Proof. exact check_sound_cache. Qed.
-Print Assumptions C10_check_sound_cache.
-
-(** request histories, both cache semantics, mechanisms and the round tripper.
-    [hist_wf] (C10/SoundHist.v) is what the driver guarantees about a recorded
-    history: request instants do not decrease, every remote answer carries a
-    fresh payload id, a mechanism without expiry information reports none, and
-    every ttl the model computes exceeds the measurement slack. *)
-Theorem C10_check_sound_hist : forall f b hk slack evs obs,
-  hist_wf f hk slack evs ->
-  let v := check f (CHist b hk slack evs obs) in
-  v_corr v = true -> v_guards v = [] -> v_prop v = true.
-Proof. exact check_sound_hist. Qed.
-Print Assumptions C10_check_sound_hist.
+Print Assumptions C10_cache_expiry_enforced.
